@@ -766,6 +766,11 @@ func genToken(r *Rng, p *pool, tier string, it int, emit Emit) {
 		keys = [][]byte{psbRootKeyBytes(&p.rsa1024[0].PublicKey, rootID, 0, r)}
 	case 8:
 		raw = flipped(raw, (signedLen+r.Intn(root.Size()))*8+r.Intn(8))
+	case 9: // exponent size 0 with a 4096-bit modulus: the signed length exceeds what was read
+		big := &p.rsa4096[0].PublicKey
+		raw = buildToken(r, big, root, rootID, 0)
+		putU32(raw, 56, 0)
+		raw = raw[:r.Pick(64+512+256, 900, 64+1024-1, 64+1024)]
 	}
 	args := []string{N(uint64(len(keys)))}
 	for _, kr := range keys {
